@@ -317,6 +317,17 @@ def translation_validation(ctx, ex):
             want_key = tuple(actual[f] for f in integ["cache_key"])
             if list(I._cache.keys()) != [want_key]:
                 mism.append(("cache key", key, theta, a, list(I._cache.keys()), want_key))
+    # the recorded argument coercion (`theta, a = float(theta), float(a)`, present or absent) is what the object does: the
+    # stored key holds Python floats iff the statement was extracted, and the value is the one for the same real numbers
+    I = Integrator(P.ConstantPulse())
+    v_int, v_flt = I.integrate(KEYS[0], 1, 2), Integrator(P.ConstantPulse()).integrate(KEYS[0], 1.0, 2.0)
+    stored = list(I._cache.keys())[0]
+    n += 2
+    coerced = all(type(x) is float for x in stored[1:])
+    if coerced != bool(integ.get("coercion")) or (not coerced and not all(type(x) is int for x in stored[1:])):
+        mism.append(("argument coercion", KEYS[0], 1, 2, [type(x).__name__ for x in stored], integ.get("coercion")))
+    if not same_float(v_int, v_flt):
+        mism.append(("argument coercion value", KEYS[0], 1, 2, float(v_int), float(v_flt)))
     for bad in (("sin(theta)", 1.0, 1.0), (KEYS[0], 1.0, 0.0), (KEYS[0], 1.0, -2.0)):
         n += 1
         try:
@@ -453,6 +464,7 @@ def main(ctx):
     cov["translation_validation_cases"] = tv_n
     cov["translation_validation_mismatches"] = len(tv_mismatch)
     cov["cache_key_fields"] = list(ex["integrate"]["cache_key"]) if ex else None
+    cov["argument_coercion"] = ex["integrate"].get("coercion") if ex else None
     cov["trusted_base"] += [
         "translator harness/qgv/pyexpr.py + harness/gen/integrator.py (Python AST -> IR -> Lean), validated on every run: IR of the 16 "
         "table lambdas, of _analytical_integration and of the function handed to scipy.integrate.quad (captured by a spy, bounds "
@@ -465,6 +477,8 @@ def main(ctx):
         "reference oracle: composite 200-node Gauss-Legendre quadrature with subinterval boundaries at a*(loc +- k*scale) and kinks",
     ]
     ctx.assumptions += ["a > 0 (validated by `integrate`); theta any real; F = pulse.get_parametrization()",
+                        "theta and a are real numbers (int / bool / float / numpy scalar): `float(theta), float(a)` at the top of "
+                        "`integrate`, when present, is the identity on the number denoted (a non-numeric argument raises there; outside C12)",
                         "use_lookup is only set together with F = identity (documented contract of Pulse.use_lookup; extracted from "
                         "pulse.py for ConstantPulse / ConstantPulseNumerical / GaussianPulse and checked on the objects); a user who "
                         "builds Pulse(non-constant F, use_lookup=True) gets the constant-pulse value by design",
